@@ -15,6 +15,9 @@ structure RangeSite where
   calls : List String
   /-- order-revealing exits of the loop body (`break`, `return`, `goto`, labelled branches) -/
   exits : List String
+  /-- source text of the statement that immediately follows the loop, reported only when the loop
+      body is a single statement (this is how "collect the keys, then sort them" is recognised) -/
+  next : String
   deriving DecidableEq, Repr
 
 /-- uses of one kind of nondeterminism source in one function: `float` (number of expressions of
